@@ -333,7 +333,7 @@ func c10IsoBodyVar(bg *[65536]uint8, e *Enc, results *[2]refz80.State, logs *[2]
 				toCPU(&cs.S, w.cpu)
 				w.cpu.IFF1, w.cpu.IFF2 = true, true
 				w.cpu.IM, w.cpu.Interrupt = c10IsoReq(reqKind, 1)
-				w.cpu.Step()
+				liveStep(w.cpu)
 				w.cpu.Interrupt = nil
 				w.cpu.HALT = false
 				w.mem.Reset()
@@ -363,7 +363,7 @@ func c10IsoBodyVar(bg *[65536]uint8, e *Enc, results *[2]refz80.State, logs *[2]
 			w.io.Hook = func(bool, uint8) { s.Point("io") }
 			s.Go(fmt.Sprintf("cpu%d", t), func() {
 				for i := 0; i < nsteps; i++ {
-					w.cpu.Step()
+					liveStep(w.cpu)
 					if i+1 < nsteps {
 						s.Point("between Steps")
 					}
@@ -641,7 +641,7 @@ func checkC10(c *Ctx) {
 					w.mem.Hook = func(bool, uint16) { s.Point("mem") }
 					s.Go(fmt.Sprintf("cpu%d", t), func() {
 						for i := 0; i < 4; i++ {
-							w.cpu.Step()
+							liveStep(w.cpu)
 							s.Point("between Steps")
 						}
 						results[t] = fromCPU(w.cpu)
